@@ -1977,7 +1977,7 @@ KNOWN_METHODS = {'get', 'keys', 'values', 'items', 'add', 'append', 'extend', 'r
                  'difference', 'isdigit'}
 
 
-IMPRECISE = {'after-loop', 'after-while', 'while', 'w', 'apply', 'lambda', 'with', 'search', 'opaque', 'slice', 'starkw'}
+IMPRECISE = {'after-loop', 'after-while', 'while', 'w', 'apply', 'lambda', 'with', 'search', 'opaque', 'slice', 'starkw', 'carried'}
 
 
 def _root(t):
